@@ -40,11 +40,13 @@ def budget(tier):
 # ---------------------------------------------------------------- workers
 
 _workers = None
+_owner = None  # pid that started the workers (forked shards must start their own)
 EXPECT_JAN = {"UTC": 0, "America/New_York": -18000, "Asia/Kolkata": 19800, "Australia/Lord_Howe": 39600, "Pacific/Chatham": 49500}
 
 
 def _start():
-    global _workers
+    global _workers, _owner
+    _owner = os.getpid()
     ws = []
     for z in ZONES:
         if z != "UTC" and not os.path.exists(os.path.join("/usr/share/zoneinfo", z)):
@@ -61,6 +63,8 @@ def _start():
 
 def _stop():
     global _workers
+    if _owner != os.getpid():
+        return
     for z, p, _ in _workers or []:
         try:
             p.stdin.close()
@@ -81,7 +85,7 @@ def _readline(p, timeout):
 
 
 def ask_all(spec):
-    if _workers is None:
+    if _workers is None or _owner != os.getpid():
         _start()
     line = json.dumps(spec) + "\n"
     for z, p, _ in _workers:
@@ -89,7 +93,11 @@ def ask_all(spec):
         p.stdin.flush()
     out = {}
     for z, p, _ in _workers:
-        res = json.loads(_readline(p, 600))
+        raw = _readline(p, 600)
+        try:
+            res = json.loads(raw)
+        except ValueError as e:
+            raise HarnessError("worker TZ=%s sent unparsable answer (%s): %r" % (z, e, raw[max(0, getattr(e, "pos", 0) - 80):getattr(e, "pos", 0) + 80]))
         if "error" in res:
             raise HarnessError("worker TZ=%s: %s" % (z, res["error"]))
         out[z] = res["ok"]
